@@ -55,6 +55,22 @@ theorem blocked_visible_after_count (s s' : St) (u : UnitId) (hs : step s (.setS
   simp only [step, stepSetSt] at hs
   cases hl : s.loc u <;> simp only [hl] at hs <;> (repeat' (split at hs)) <;> (try cases hs) <;> simp_all
 
+/-- **a resumed unit is never unaccounted**: the push that puts a resumed unit back into its pool happens while the unit
+is still counted in that pool's `num_blocked` (the decrement comes after the push): at every instant a suspended-then-
+resumed unit is visible to `ABTI_sched_has_unit` either through the counter or through the pool's size, so a scheduler
+with a pending FINISH request cannot conclude "drained" in between -/
+theorem resumed_unit_always_accounted (s s' : St) (p : PoolId) (u : UnitId) (hs : step s (.push p u) = some s')
+    (hb : s.loc u = .blocked) : s.charged u = true ∧ s.chargedPool u = p ∧ s'.loc u = .inPool p := by
+  simp only [step, stepPush] at hs
+  split at hs
+  · rename_i h; cases hs; exact ⟨(h.2.2.2 hb).2.1, (h.2.2.2 hb).2.2, by simp [upd]⟩
+  · cases hs
+
+/-- decrementing before the push (the unit would be invisible for a moment) is rejected -/
+example : (machine.run init
+      [.create 1 0, .push 0 1, .pop 7 0 1, .setSt 1 .running, .run 7 1, .cb 7 1 .suspend, .incB 1 0,
+       .setSt 1 .blocked, .resume 1, .setSt 1 .ready, .decB 1 0, .push 0 1]).isNone = true := by decide
+
 /-- non-vacuity, including the lagging decrement: u blocks, is resumed and pushed, blocks again before the resumer's
 decrement: the counter is 2 for a moment, then 1 -/
 example :
